@@ -386,10 +386,10 @@ def rule_tariff_choice(ck, rid="C17.S2"):
 
 
 def run(ck):
-    rule_tariff_choice(ck)
-    rule_tables(ck)
-    rule_schedule_parse(ck)
-    rule_wrap(ck)
-    rule_selection(ck)
-    rule_lookup(ck)
-    rule_alignment(ck)
+    ck.attempt(rule_tariff_choice)
+    ck.attempt(rule_tables)
+    ck.attempt(rule_schedule_parse)
+    ck.attempt(rule_wrap)
+    ck.attempt(rule_selection)
+    ck.attempt(rule_lookup)
+    ck.attempt(rule_alignment)
